@@ -129,7 +129,10 @@ namespace Pistache::Http::Experimental
             writeHeaders(streamBuf, request.headers());
 
             writeHeader<Http::Header::UserAgent>(streamBuf, UA);
-            writeHeader<Http::Header::Host>(streamBuf, std::string(host));
+            // a Host header set by the caller has been written with the other headers
+            // already: a request must not carry two of them
+            if (!request.headers().has<Http::Header::Host>())
+                writeHeader<Http::Header::Host>(streamBuf, std::string(host));
             if (!body.empty())
             {
                 writeHeader<Http::Header::ContentLength>(streamBuf, body.size());
